@@ -24,6 +24,9 @@ CHECKS = {
     "C05": dict(
         text="Coq theorems over models of the client builders (parse.py) and the device-side decoders (parserecv.py) with regenerated format strings and flag values: for every device size 1..255, every current state, every channel, every 8-bit value and every vector, the emitted bytes are wire(id, spec payload), the device-side receiver hands exactly that payload to the right callback, and the decoder returns exactly the intended per-channel vector, whichever compact form (single/all/bulk) was chosen. Differential: builders vs independent encoder, real recv_handle, real decoders on devices with random current state.",
         design="3/C05", technique="Coq proof (induction over vectors; struct round-trip lemmas) + translator-regenerated constants + differential correspondence"),
+    "C06": dict(
+        text="Coq theorems: for every value 0..255 of each one-byte field, every NUL-free Unicode text that fits a frame followed by any number of NUL terminators, and every 32-bit return code, the response built by the device-side encoder is wire(id, payload), decodes through the frame codec, and the client-side decoder returns exactly the configuration (name = text before the first NUL; ACK success iff r = 0, r preserved); derived attributes of the client record follow from the type byte / flags for all 256 values. Needs the UTF-8 round-trip theorem (lib/Utf8.v). Differential: encode -> frame_decode -> decode on the real code vs model vs the configuration itself, incl. 2/3/4-byte code points and malformed payloads.",
+        design="3/C06", technique="Coq proof (struct + UTF-8 round-trip lemmas; 256-value sweeps lifted) + translator-regenerated constants + differential correspondence"),
 }
 PENDING = {}
 
